@@ -323,6 +323,8 @@ def argOK : Arg → Prop
   | .retv none => True
   | .retv (some (t, o)) => operandOK o ∧ t ≠ .void
   | .phis incs => incs ≠ [] ∧ ∀ p ∈ incs, incOK p
+  | .nums ks => ∀ k ∈ ks, k < 2 ^ 63
+  | .align a => ∀ n ∈ a, n < 2 ^ 63
 
 /-- the arguments fill the non-literal slots, in order -/
 inductive Matches : List Slot → List Arg → Prop
@@ -334,6 +336,10 @@ inductive Matches : List Slot → List Arg → Prop
   | lab (i : Ident) {fs : List Slot} {as : List Arg} : Matches fs as → Matches (.lab :: fs) (.lab i :: as)
   | retv (v : Option (Ty × Operand)) {fs : List Slot} {as : List Arg} : Matches fs as → Matches (.retv :: fs) (.retv v :: as)
   | phis (incs : List (Operand × Ident)) {fs : List Slot} {as : List Arg} : Matches fs as → Matches (.phis :: fs) (.phis incs :: as)
+  | nums (ks : List Nat) {fs : List Slot} {as : List Arg} : Matches fs as → Matches (.nums :: fs) (.nums ks :: as)
+  | align (a : Option Nat) {fs : List Slot} {as : List Arg} : Matches fs as → Matches (.align :: fs) (.align a :: as)
+
+theorem matches_nil (as : List Arg) (h : Matches [] as) : as = [] := by cases h; rfl
 
 def startsComma : List Slot → Bool
   | [] => true
@@ -344,12 +350,15 @@ def opFollow : List Slot → Bool
   | [] => true
   | .lit (44 :: _) :: _ => true
   | .lit (32 :: 116 :: _) :: _ => true
+  | [.nums] => true
+  | [.align] => true
   | _ => false
 
 def tyFollow : List Slot → Bool
   | [] => true
   | .lit (44 :: _) :: _ => true
   | .lit [32] :: .phis :: _ => true
+  | [.align] => true
   | _ => false
 
 /-- shape of a row: what follows each kind of slot; the two list-like slots end the row -/
@@ -362,6 +371,8 @@ def fmtOK : List Slot → Bool
   | .lab :: fs => startsComma fs && fmtOK fs
   | .retv :: fs => fs.isEmpty
   | .phis :: fs => fs.isEmpty
+  | .nums :: fs => fs.isEmpty
+  | .align :: fs => fs.isEmpty
 
 theorem endOK_print (useHex : Int → Bool) (cur : Ty) (fs : List Slot) (as : List Arg)
     (hs : startsComma fs = true) : endOK (printSlots useHex cur fs as) = true := by
@@ -378,6 +389,22 @@ theorem opEnd_print (useHex : Int → Bool) (cur : Ty) (fs : List Slot) (as : Li
   · simp [printSlots, opEnd]
   · simp [printSlots, opEnd]
   · simp [printSlots, opEnd]
+  · cases as with
+    | nil => simp [printSlots, opEnd]
+    | cons a as' =>
+      cases a <;> try (simp [printSlots, opEnd])
+      rename_i ks
+      cases ks with
+      | nil => simp [numsString, printSlots, opEnd]
+      | cons k ks' => simp [numsString, sComma, opEnd]
+  · cases as with
+    | nil => simp [printSlots, opEnd]
+    | cons a as' =>
+      cases a <;> try (simp [printSlots, opEnd])
+      rename_i al
+      cases al with
+      | none => simp [alignString, printSlots, opEnd]
+      | some n => simp [alignString, sAlign, opEnd]
   · cases hs
 
 theorem tyEnd_print (useHex : Int → Bool) (cur : Ty) (fs : List Slot) (as : List Arg)
@@ -400,9 +427,47 @@ theorem tyEnd_print (useHex : Int → Bool) (cur : Ty) (fs : List Slot) (as : Li
           cases hps : phisString useHex cur (p :: ps) with
           | nil => rw [hps] at hh; simp at hh
           | cons c r => rw [hps] at hh; simp at hh; subst hh; simp [printSlots, hps, tyEnd]
+  · cases hm with
+    | align a hm' =>
+      have := matches_nil _ hm'; subst this
+      cases a with
+      | none => simp [printSlots, alignString, tyEnd]
+      | some n => simp [printSlots, alignString, sAlign, tyEnd]
   · cases hs
 
-theorem matches_nil (as : List Arg) (h : Matches [] as) : as = [] := by cases h; rfl
+
+theorem readNums_print : ∀ (ks : List Nat) (f : Nat), (∀ k ∈ ks, k < 2 ^ 63) → ks.length + 1 ≤ f → readNums f (numsString ks) = some ks
+  | [], f, _, hf => by
+    obtain ⟨f', rfl⟩ : ∃ f', f = f' + 1 := ⟨f - 1, by simp at hf; omega⟩
+    simp [numsString, readNums]
+  | k :: ks, f, hk, hf => by
+    obtain ⟨f', rfl⟩ : ∃ f', f = f' + 1 := ⟨f - 1, by simp at hf; omega⟩
+    have ih := readNums_print ks f' (fun x hx => hk x (by simp [hx])) (by simp at hf ⊢; omega)
+    have hstop : ∀ c ∈ (numsString ks).head?, isDigit c = false := by
+      cases ks with
+      | nil => simp [numsString]
+      | cons a r => simp [numsString, sComma, isDigit]
+    obtain ⟨h1, h2⟩ := TyParse.takeWhile_append_stop isDigit (natDec k) (numsString ks) (natDec_digits k) hstop
+    have hs : numsString (k :: ks) = 44 :: 32 :: (natDec k ++ numsString ks) := by simp [numsString, sComma]
+    have hsp : TyParse.stripPrefix sComma (44 :: 32 :: (natDec k ++ numsString ks)) = some (natDec k ++ numsString ks) := by
+      simp [sComma, TyParse.stripPrefix]
+    rw [hs]
+    simp only [readNums, hsp, h1, h2, parseUint63_natDec k (hk k (by simp)), ih, Option.map_some]
+
+theorem numsString_len : ∀ (ks : List Nat), ks.length ≤ (numsString ks).length
+  | [] => by simp [numsString]
+  | k :: ks => by have := numsString_len ks; simp [numsString, sComma]; omega
+
+theorem readAlign_print (a : Option Nat) (h : ∀ n ∈ a, n < 2 ^ 63) : readAlign (alignString a) = some a := by
+  cases a with
+  | none => simp [alignString, readAlign]
+  | some n =>
+    have hn := h n (by simp)
+    have hs : alignString (some n) = 44 :: ([32, 97, 108, 105, 103, 110, 32] ++ natDec n) := by simp [alignString, sAlign]
+    have hsp : TyParse.stripPrefix sAlign (44 :: ([32, 97, 108, 105, 103, 110, 32] ++ natDec n)) = some (natDec n) := by
+      simp [sAlign, TyParse.stripPrefix]
+    rw [hs]
+    simp only [readAlign, hsp, parseUint63_natDec n hn]
 
 theorem read_print_slots (useHex : Int → Bool) (fs : List Slot) (as : List Arg) (hm : Matches fs as) :
     ∀ (cur : Ty), fmtOK fs = true → (∀ a ∈ as, argOK a) →
@@ -475,8 +540,25 @@ theorem read_print_slots (useHex : Int → Bool) (fs : List Slot) (as : List Arg
     have hp : incs ≠ [] ∧ ∀ p ∈ incs, incOK p := ha (.phis incs) (by simp)
     simp only [printSlots, readSlots, List.append_nil]
     rw [readPhis_print useHex cur incs hp.1 hp.2 _ (by have := phisString_len (useHex := useHex) (cur := cur) incs; omega)]
+  | @nums ks fs' as' hm ih =>
+    intro cur hf ha
+    simp only [fmtOK, List.isEmpty_iff] at hf
+    subst hf
+    have := matches_nil as' hm; subst this
+    have hk : ∀ k ∈ ks, k < 2 ^ 63 := ha (.nums ks) (by simp)
+    simp only [printSlots, readSlots, List.append_nil]
+    rw [readNums_print ks _ hk (by have := numsString_len ks; omega)]
+  | @align a fs' as' hm ih =>
+    intro cur hf ha
+    simp only [fmtOK, List.isEmpty_iff] at hf
+    subst hf
+    have := matches_nil as' hm; subst this
+    have hk : ∀ n ∈ a, n < 2 ^ 63 := ha (.align a) (by simp)
+    simp only [printSlots, readSlots, List.append_nil]
+    rw [readAlign_print a hk]
 
 /-! ### the row table -/
+
 
 /-- two byte strings differ at a position both have -/
 def diverge : Bytes → Bytes → Bool
